@@ -192,6 +192,12 @@ pub struct MemBuildCase {
     /// once more: a second sorted input fed behind the first one by a caller
     /// that skips the refusals)
     pub reject_run: u64,
+    /// 2 = the builder (streaming to io::sink()) is handed back and forth
+    /// between two long-lived threads, one insert each: thread 0 inserts the
+    /// long key of a pair (pushes nodes), thread 1 the short one (pops them).
+    /// A builder is Send; where its memory lives must not depend on which
+    /// thread happens to drive it. 1 = one thread (everything else).
+    pub threads: u8,
 }
 
 #[derive(Clone, Debug)]
@@ -231,7 +237,162 @@ pub fn build_bound(registry: Option<(usize, usize)>, fanout: u32, keylen: u32, a
     after_new + cells * per_vec + (l + 2) * (64 + per_vec) + 4 * l + 256 * 1024
 }
 
+enum PingPongBuilder {
+    Map(fst::MapBuilder<std::io::Sink>),
+    Set(fst::SetBuilder<std::io::Sink>),
+}
+
+impl PingPongBuilder {
+    fn insert(&mut self, k: &[u8], v: u64) -> bool {
+        match self {
+            PingPongBuilder::Map(b) => b.insert(k, v).is_ok(),
+            PingPongBuilder::Set(b) => b.insert(k).is_ok(),
+        }
+    }
+    fn bytes_written(&self) -> u64 {
+        match self {
+            PingPongBuilder::Map(b) => b.bytes_written(),
+            PingPongBuilder::Set(b) => b.bytes_written(),
+        }
+    }
+}
+
+/// `threads == 2`: see MemBuildCase::threads. Live heap is the sum over both
+/// threads (memory allocated on one and freed on the other counts once).
+fn run_mem_pingpong(case: &MemBuildCase) -> MemBuildRun {
+    use std::sync::mpsc::channel;
+    let fam = case.fam;
+    let pairs = fam.n / 2;
+    let tail = fam.keylen as usize;
+    let digits = KeyFamily { pairs: false, leaf_fan: 0, repeat: 1, sec_vocab: 0, sec_parents: 0, n: pairs + 1, fanout: 26, ..fam }.digits();
+    let mut run = MemBuildRun {
+        bound: 0,
+        after_new: 0,
+        max_live: 0,
+        live_at_tenth: 0,
+        live_at_end: 0,
+        checkpoints: 0,
+        bytes_emitted: 0,
+        allocs: 0,
+        refused: 0,
+        cut_short: false,
+        violation: None,
+        digest: 0,
+    };
+    let key_of = move |j: u64, long: bool, buf: &mut Vec<u8>| {
+        buf.clear();
+        let mut div = 1u64;
+        for _ in 1..digits {
+            div *= 26;
+        }
+        let mut rem = j;
+        for _ in 0..digits {
+            buf.push(b'a' + (rem / div) as u8);
+            rem %= div;
+            div = std::cmp::max(1, div / 26);
+        }
+        if long {
+            let mut x = mix(fam.seed, 0x9109, j);
+            for _ in 0..tail {
+                buf.push(b'a' + (x % 20) as u8);
+                x = (x / 20).wrapping_add(x.wrapping_shl(7)) ^ 0x9e37;
+            }
+        } else {
+            buf.push(b'z');
+        }
+    };
+    // (builder, live heap of the sending thread relative to its own baseline)
+    let (to1, from0) = channel::<Option<(PingPongBuilder, i64)>>();
+    let (to0, from1) = channel::<(PingPongBuilder, i64)>();
+    let map = case.map;
+    let t1 = std::thread::spawn(move || {
+        let mut key: Vec<u8> = Vec::with_capacity(256);
+        let base = alloc::live();
+        let mut j = 0u64;
+        while let Ok(Some((mut b, _))) = from0.recv() {
+            key_of(j, false, &mut key);
+            let _ = b.insert(&key, j * 2 + 1);
+            j += 1;
+            if to0.send((b, alloc::live() - base)).is_err() {
+                break;
+            }
+        }
+    });
+    let r = catch_unwind(AssertUnwindSafe(|| -> Option<Violation> {
+        let mut key: Vec<u8> = Vec::with_capacity(256);
+        let base = alloc::live();
+        let mut b = if map {
+            PingPongBuilder::Map(fst::MapBuilder::new(std::io::sink()).ok()?)
+        } else {
+            PingPongBuilder::Set(fst::SetBuilder::new(std::io::sink()).ok()?)
+        };
+        run.after_new = alloc::live() - base;
+        let bound = build_bound(None, 26, digits + tail as u32 + 1, run.after_new);
+        run.bound = bound;
+        for j in 0..pairs {
+            key_of(j, true, &mut key);
+            if !b.insert(&key, j * 2) {
+                run.refused += 1;
+            }
+            if to1.send(Some((b, 0))).is_err() {
+                run.cut_short = true;
+                return None;
+            }
+            let (b2, live1) = match from1.recv() {
+                Ok(x) => x,
+                Err(_) => {
+                    run.cut_short = true;
+                    return None;
+                }
+            };
+            b = b2;
+            if (j + 1) % case.every == 0 || j + 1 == pairs {
+                let live = (alloc::live() - base) + live1;
+                run.checkpoints += 1;
+                if live > run.max_live {
+                    run.max_live = live;
+                }
+                if j + 1 <= std::cmp::max(case.every, pairs / 10) {
+                    run.live_at_tenth = live;
+                }
+                run.live_at_end = live;
+                if live > bound {
+                    return viol(
+                        "C13.live_heap_exceeds_bound",
+                        format!(
+                            "builder handed back and forth between two threads, after {} key pairs ({} bytes emitted): {} B live in both threads together > bound {} B",
+                            j + 1,
+                            b.bytes_written(),
+                            live,
+                            bound
+                        ),
+                    );
+                }
+            }
+        }
+        run.bytes_emitted = b.bytes_written();
+        None
+    }));
+    let _ = to1.send(None);
+    drop(to1);
+    let _ = t1.join();
+    run.violation = match r {
+        Ok(v) => v,
+        Err(p) => viol("C13.panic", panic_msg(p)),
+    };
+    let mut d = Digest::new();
+    d.u64(run.max_live as u64);
+    d.u64(run.live_at_end as u64);
+    d.u64(run.bytes_emitted);
+    d.u64(run.refused);
+    run.digest = d.finish();
+    run
+}
+
 pub fn run_mem_build(case: &MemBuildCase) -> MemBuildRun {
+    if case.threads == 2 {
+        return run_mem_pingpong(case);
+    }
     let fam = case.fam;
     let mut sink = SinkState::new(
         Plan::clean(),
@@ -853,6 +1014,31 @@ fn measure_all(fam: &KeyFamily, k: u32, fsts_bytes: &[Vec<u8>]) -> Vec<OpMeasure
         out.push(measure("union.main_x_segment.k2", || drain(m0.op().add(&smaps[1]).union())));
         out.push(measure("symmetric_difference.main_x_segment.k2", || {
             drain(sets[0].op().add(&ssets[2]).symmetric_difference())
+        }));
+    }
+    // operands handed over through Extend / FromIterator from an iterator
+    // whose size_hint is loose (filter: upper bound = all candidates): the
+    // heap of the operation depends on k, not on what the iterator might
+    // have yielded
+    {
+        let pick = |i: &u32| *i % 1_000_000 == 0;
+        out.push(measure("union.collected_from_filter.k3", || {
+            let ob: fst::map::OpBuilder = (0..3_000_000u32).filter(pick).map(|i| &maps[(i / 1_000_000) as usize % maps.len()]).collect();
+            drain(ob.union())
+        }));
+        out.push(measure("intersection.extended_from_filter.k3", || {
+            let mut ob = fst::set::OpBuilder::new();
+            ob.extend((0..3_000_000u32).filter(pick).map(|i| &sets[(i / 1_000_000) as usize % sets.len()]));
+            drain(ob.intersection())
+        }));
+        out.push(measure("raw.union.collected_from_filter.k3", || {
+            let ob: fst::raw::OpBuilder = (0..3_000_000u32).filter(pick).map(|i| maps[(i / 1_000_000) as usize % maps.len()].as_fst()).collect();
+            let mut u = ob.union();
+            let mut n = 0;
+            while let Some(_) = u.next() {
+                n += 1;
+            }
+            n
         }));
     }
     // more than 2^20 point look-ups on ONE opened object of each kind
